@@ -138,6 +138,7 @@ type Res struct {
 	OutOK bool     `json:"ok,omitempty"`
 	Out2  string   `json:"o2,omitempty"`  // seed2: second result
 	Out1b string   `json:"o1b,omitempty"` // seed2: first result re-read after the second call and after clobbering
+	Out3  string   `json:"o3,omitempty"`  // seed2: a third call with the same arguments, made after the second result was clobbered
 	Alias bool     `json:"al,omitempty"`  // seed2: backing arrays overlap
 	B     *bool    `json:"b,omitempty"`
 	Err   *ErrInfo `json:"err,omitempty"`
